@@ -549,7 +549,10 @@ class Polygon(Shape2D):
             (np.sum(points[:-1] * points[:-1], axis=1) / 2, [0])
         )
         x, resids, _, _ = np.linalg.lstsq(points, half_point_lengths, None)
-        if len(self.vertices) > 3 and not np.isclose(resids, 0):
+        # The residual has dimension length^4, so it is compared relative to the
+        # right-hand side rather than to an absolute number.
+        atol = 1e-8 * np.sum(half_point_lengths * half_point_lengths)
+        if len(self.vertices) > 3 and not np.isclose(resids, 0, atol=atol):
             raise RuntimeError("No circumcircle for this polygon.")
 
         return Circle(np.linalg.norm(x), x + self.vertices[0])
@@ -614,7 +617,8 @@ class Polygon(Shape2D):
         )
 
         x, resids, _, _ = np.linalg.lstsq(a, b, None)
-        if len(self.vertices) > 4 and not np.isclose(resids, 0):
+        # The residual has dimension length^2; compare it relative to the radius.
+        if len(self.vertices) > 4 and not np.isclose(resids, 0, atol=1e-8 * x[3] ** 2):
             raise RuntimeError("No incircle for this polygon.")
 
         return Circle(x[3], x[:3])
